@@ -430,33 +430,56 @@ func thunkPat(body Pat) Pat {
 func (r *rwRT) ruleTmplBind() {
 	c := r.c
 	c.min("RW.TMPL.BIND", 1)
-	fn := r.method("yieldRewriter", "rewriteYieldCall")
+	// the statement rewriter is the entry point: a statement `Yield(v)` goes through whatever checks and helpers
+	// the package has (which of them is handed the call and which the operand is its business)
+	fn := r.method("yieldRewriter", "rewriteStmt")
 	c.fn(relName(fn))
 	pos := r.w.FnPos(fn)
 	st := newState()
-	callRef, _ := r.heapNode(st, "CallExpr", map[string]AV{"Fun": exprLeaf(r, "Yield"), "Args": SliceV{Elems: []AV{exprLeaf(r, "v")}}})
-	in := r.interp(rwConfig{root: fn, blockOracles: true, boundaries: map[string]bool{"rewriteYieldCall": false}})
+	callRef, call := r.heapNode(st, "CallExpr", map[string]AV{"Fun": exprLeaf(r, "Yield"), "Args": SliceV{Elems: []AV{exprLeaf(r, "v")}}, "Lparen": Sym{Name: "lp"}})
+	_, stmt := r.heapNode(st, "ExprStmt", map[string]AV{"X": call})
+	in := r.interp(rwConfig{root: fn, blockOracles: true, boundaries: map[string]bool{"rewriteStmt": false, "rewriteYieldCall": false},
+		extra: func(cc *CallCtx) []Answer {
+			if cc.Fn != nil && inRw(cc.Fn) {
+				switch cc.Fn.Name() {
+				case "isYieldCall":
+					return []Answer{{Ret: []AV{unwrap(callRef), mkBool(true)}, NoEvent: true}}
+				case "isYieldFromCall":
+					return []Answer{{Ret: []AV{Nil{}, mkBool(false)}, NoEvent: true}}
+				}
+			}
+			return nil
+		}})
+	in.MaxDepth = 16
 	in.Fields["r.yieldAst.funRetParamTy"] = exprLeaf(r, "T")
-	outs := in.Run(st, fn, []AV{Sym{Name: "r", NN: true}, callRef, Sym{Name: "children", NN: true}}, nil)
+	outs := in.Run(st, fn, []AV{Sym{Name: "r", NN: true}, stmt, mkBool(false), Sym{Name: "children", NN: true}}, nil)
 	r.account(in)
-	if len(outs) != 1 || outs[0].Panicked || len(outs[0].Ret) != 1 {
-		c.bad("RW.TMPL.BIND", "Yield(v)", pos, "not a single straight-line path")
-		return
-	}
-	o := outs[0]
-	follow := o.St.Obj(o.Ret[0])
-	var pushed AV
-	for _, e := range o.St.Events {
-		if e.Kind == "call" && e.Fn != nil && e.Fn.Name() == "pushReturn" && len(e.Args) >= 2 && isSymNamed(e.Args[0], "children") {
-			pushed = e.Args[1]
+	var err error
+	matched := 0
+	for _, o := range outs {
+		if o.Panicked || len(o.Ret) != 1 {
+			continue
+		}
+		follow := o.St.Obj(o.Ret[0])
+		var pushed AV
+		for _, e := range o.St.Events {
+			if e.Kind == "call" && e.Fn != nil && e.Fn.Name() == "pushReturn" && len(e.Args) >= 2 && isSymNamed(e.Args[0], "children") {
+				pushed = e.Args[1]
+			}
+		}
+		if follow == nil || pushed == nil {
+			err = fmt.Errorf("no `return Bind(...)` is pushed into the enclosing block, or no continuation block is returned: %s", pathSummary(o))
+			continue
+		}
+		want := seqCallPat("Bind", pLeaf{"v"}, thunkPat(pVal{follow.Fields["block"]}))
+		if e := matchTmpl(o.St, pushed, want); e != nil {
+			err = e
+		} else {
+			matched++
 		}
 	}
-	var err error
-	if follow == nil || pushed == nil {
-		err = fmt.Errorf("no `return Bind(...)` is pushed into the enclosing block, or no continuation block is returned")
-	} else {
-		want := seqCallPat("Bind", pLeaf{"v"}, thunkPat(pVal{follow.Fields["block"]}))
-		err = matchTmpl(o.St, pushed, want)
+	if err == nil && matched == 0 {
+		err = fmt.Errorf("the statement `Yield(v)` is rejected on every path")
 	}
 	c.check(err == nil, "RW.TMPL.BIND", "Yield(v)", pos,
 		"pushes `return Bind(v, func() Seq { <continuation> })` into the enclosing block and continues *inside* that thunk: the yielded expression is evaluated when the enclosing thunk runs, later statements are lexically nested under earlier declarations",
